@@ -307,7 +307,7 @@ type TxResult struct {
 func (r *TxResult) OK() bool { return r.Code == 0 }
 
 // IsPanic reports whether baseapp recovered a panic while running the tx.
-func (r *TxResult) IsPanic() bool { return r.Codespace == "sdk" && r.Code == 111222 }
+func (r *TxResult) IsPanic() bool { return r.Code == 111222 }
 
 // BuildTx encodes messages into tx bytes (no signatures; the chain has no ante handler).
 func (c *Chain) BuildTx(msgs ...sdk.Msg) ([]byte, error) {
